@@ -6,3 +6,5 @@ const fineGrainBuild = false
 
 func installFineGrain(s *sched) {}
 func uninstallFineGrain()       {}
+
+func setSimClock(t int64, onRead func(site string)) {}
